@@ -358,3 +358,47 @@ func shellNoStart() {
 		}
 	}
 }
+
+// ---------------------------------------------------------------------------- round 4: background process keeps the pipes
+
+// shellBackground: the shell exits while a process it started in the background still holds the
+// captured stdout / stderr pipe for a while and then writes some more.  The execution's outcome is
+// the command's: status OK exactly when the shell exited 0, Execute returns nil then, and stdout /
+// stderr are what the execution wrote (everything written before the pipes were closed).
+// All variants run in parallel (they mostly sleep); no timing is asserted.
+func shellBackground() {
+	type variant struct {
+		name     string
+		hold     string // seconds, as the shell's sleep takes it
+		cmd      string
+		exit     int
+		out, err string
+	}
+	var vs []variant
+	for _, h := range []string{"0.5", "1.5", "4"} {
+		vs = append(vs,
+			variant{"stdout-late-write", h, fmt.Sprintf("(sleep %s; printf late) & printf early", h), 0, "earlylate", ""},
+			variant{"stderr-late-write", h, fmt.Sprintf("(sleep %s; printf late >&2) & printf early >&2", h), 0, "", "earlylate"},
+			variant{"both-held-silent", h, fmt.Sprintf("sleep %s & printf out; printf err >&2", h), 0, "out", "err"},
+			variant{"late-write-exit-3", h, fmt.Sprintf("(sleep %s; printf late) & printf early; exit 3", h), 3, "earlylate", ""},
+		)
+	}
+	out := make([]*shellObs, len(vs))
+	var wg sync.WaitGroup
+	for i, v := range vs {
+		wg.Add(1)
+		go func(i int, v variant) {
+			defer wg.Done()
+			cb := i%2 == 0
+			sh, p := newShell(v.cmd, cb)
+			o := &shellObs{Kind: "shell", Variant: "bg-" + v.name, Want: v.exit, Callback: cb,
+				Note: "background process holds the pipe for " + v.hold + " s after the shell exited: " + v.cmd}
+			runShell(sh, p, o, v.out, v.err)
+			out[i] = o
+		}(i, v)
+	}
+	wg.Wait()
+	for _, o := range out {
+		emit(o)
+	}
+}
